@@ -133,10 +133,9 @@ def replay_one(job):
     cmds = p.commands
     if not late and jid % 5 == 1 and all(h[0] == "result" for h in hist):
         # the caller keeps the commands (or just their dictionary) and lets go of the Program object itself before reading results
-        import gc
-
+        # (no forced garbage collection: a full collection in a forked worker walks the whole inherited heap - seconds per replay; where the Program is only
+        #  weakly referenced, dropping the last reference frees it at once)
         p = None
-        gc.collect()
         res["program_dropped"] = True
     tracer.install()
     outcomes = []
